@@ -258,7 +258,12 @@ func c14OnceNaN(fn int, r *R, rep int) []int64 {
 	var res []int64
 	switch fn {
 	case 101:
-		res = (&W{}).Ints(sortedCodes(gogu.Keys(buildFMap(r.Ints(), rep)))).Out()
+		ks := gogu.Keys(c14ToK(buildFMap(r.Ints(), rep)))
+		fs := make([]float64, len(ks))
+		for i, k := range ks {
+			fs[i] = float64(k)
+		}
+		res = (&W{}).Ints(sortedCodes(fs)).Out()
 	case 102:
 		res = (&W{}).Ints(sortedCodes(gogu.Values(buildFMap(r.Ints(), rep)))).Out()
 	case 103:
@@ -271,16 +276,16 @@ func c14OnceNaN(fn int, r *R, rep int) []int64 {
 		}
 	case 104:
 		c, a, m := r.Int(), c14F(r.Int()), buildFMap(r.Ints(), rep)
-		res = (&W{}).FMap(gogu.PickBy(m, c14NKVPred(c, a))).Out()
+		res = (&W{}).FMap(c14FromK(gogu.PickBy(c14ToK(m), c14KPred(c14NKVPred(c, a))))).Out()
 	case 105:
 		c, a, m := r.Int(), c14F(r.Int()), buildFMap(r.Ints(), rep)
-		res = (&W{}).FMap(gogu.FilterMap(m, c14NVPred(c, a))).Out()
+		res = (&W{}).FMap(c14FromK(gogu.FilterMap(c14ToK(m), c14NVPred(c, a)))).Out()
 	case 106:
 		m, ks := buildFMap(r.Ints(), rep), c14Floats(r.Ints())
 		res = (&W{}).FMap(gogu.Omit(m, ks...)).Out()
 	case 107:
 		c, a, m := r.Int(), c14F(r.Int()), buildFMap(r.Ints(), rep)
-		res = (&W{}).FMap(gogu.OmitBy(m, c14NKVPred(c, a))).Out()
+		res = (&W{}).FMap(c14FromK(gogu.OmitBy(c14ToK(m), c14KPred(c14NKVPred(c, a))))).Out()
 	case 108:
 		c, m := r.Int(), buildFMap(r.Ints(), rep)
 		res = (&W{}).FMap(gogu.MapValues(m, c14NVFun(c))).Out()
@@ -291,7 +296,7 @@ func c14OnceNaN(fn int, r *R, rep int) []int64 {
 		res = (&W{}).FMap(gogu.Invert(buildFMap(r.Ints(), rep))).Out()
 	case 111:
 		c, a, m := r.Int(), c14F(r.Int()), buildFMap(r.Ints(), rep)
-		res = (&W{}).FMap(gogu.Find(m, c14NVPred(c, a))).Out()
+		res = (&W{}).FMap(c14FromK(gogu.Find(c14ToK(m), c14NVPred(c, a)))).Out()
 	case 112:
 		c, a, m := r.Int(), c14F(r.Int()), buildFMap(r.Ints(), rep)
 		res = []int64{int64(c14Code(gogu.FindKey(m, c14NVPred(c, a))))}
@@ -302,7 +307,7 @@ func c14OnceNaN(fn int, r *R, rep int) []int64 {
 		key, flats := c14F(r.Int()), r.Intss()
 		res = (&W{}).Ints(c14Codes(gogu.Pluck(fmapsFor(flats, rep), key))).Out()
 	case 115:
-		res = (&W{}).FMap(gogu.MapUnique(buildFMap(r.Ints(), rep))).Out()
+		res = (&W{}).FMap(c14FromK(gogu.MapUnique(c14ToK(buildFMap(r.Ints(), rep))))).Out()
 	case 116:
 		c, a, m := r.Int(), c14F(r.Int()), buildFMap(r.Ints(), rep)
 		res = []int64{b2i(gogu.MapEvery(m, c14NVPred(c, a)))}
@@ -566,4 +571,34 @@ func genC14NaN(g *Gen, emit func(stream string, nt bool, w *W)) {
 			one("nan-large", f)
 		}
 	}
+}
+
+// c14K: a NAMED float64 key type with a String method (a unit type).  The helpers whose code looks at the keys
+// are run at map[c14K]float64 (converted from / to the built-in key type around the call, NaN entries kept one by
+// one): `k != k` must be recognised for every float key type, not only for the built-in ones.
+type c14K float64
+
+func (k c14K) String() string { return "key" }
+
+func c14ToK(m map[float64]float64) map[c14K]float64 {
+	out := make(map[c14K]float64, len(m))
+	for k, v := range m {
+		out[c14K(k)] = v
+	}
+	return out
+}
+
+func c14FromK(m map[c14K]float64) map[float64]float64 {
+	if m == nil {
+		return nil
+	}
+	out := make(map[float64]float64, len(m))
+	for k, v := range m {
+		out[float64(k)] = v
+	}
+	return out
+}
+
+func c14KPred(p func(float64, float64) bool) func(c14K, float64) bool {
+	return func(k c14K, v float64) bool { return p(float64(k), v) }
 }
